@@ -65,9 +65,14 @@ def run(ctx):
     dom = cfg.dominators()
     ctx.check("R13.1", f"{ps.key}::positivity test precedes the square root", bool(pos) and bool(sq) and all(pos[0].id in dom[s_.id] for s_ in sq), None, ps)
     dds = D.methods["draw_sample"]
-    rr = [r for r in walk_no_nested(dds.node) if isinstance(r, ast.Return)]
-    ctx.check("R13.1", f"{dds.key}::white noise is shaped by process_sample(res, from_inverse)",
-              len(rr) == 1 and src(rr[0].value) == f"self.process_sample(res, {dds.params()[1]})", src(rr[0].value) if rr else None, dds)
+    from ..terms import inline_at
+    dcfg = cfg_of(dds)
+    drd = dcfg.reaching_defs(dds.params())
+    rr = [n for n in dcfg.nodes if n.kind == "stmt" and isinstance(n.ast, ast.Return)]
+    e = inline_at(dcfg, drd, rr[-1].id, rr[-1].ast.value, depth=3) if rr else None
+    okk = isinstance(e, ast.Call) and src(e.func) == "self.process_sample" and len(e.args) == 2 and src(e.args[1]) == dds.params()[1] \
+        and isinstance(e.args[0], ast.Call) and call_name(e.args[0]) == "from_random"
+    ctx.check("R13.1", f"{dds.key}::white noise is shaped by process_sample(<white noise>, from_inverse)", okk, src(e) if e is not None else None, dds)
     bds = B.methods["draw_sample"]
     ctx.saw_func(bds)
     cfg = cfg_of(bds)
@@ -134,9 +139,34 @@ def run(ctx):
               len(rr) == 1 and src(rr[0].value) == f"self.special_draw_sample({seds.params()[1]}, {seds.params()[2]})[1]", src(rr[0].value) if rr else None, seds)
     sp_ = SE.methods["special_draw_sample"]
     ctx.saw_func(sp_)
-    allr = sorted(src(r.value) for r in walk_no_nested(sp_.node) if isinstance(r, ast.Return))
+    scfg = cfg_of(sp_)
+    srd = scfg.reaching_defs(sp_.params())
+    rets_ = [n for n in scfg.nodes if n.kind == "stmt" and isinstance(n.ast, ast.Return)]
+    direct, cg = [], []
+    for r in rets_:
+        e = inline_at(scfg, srd, r.id, r.ast.value, depth=8, unpack_calls=True)
+        if isinstance(e, ast.Tuple) and len(e.elts) == 2:
+            a, b = e.elts
+            if isinstance(a, ast.Call) and src(a.func) == "self._op" and len(a.args) == 1 and src(a.args[0]) == src(b) \
+                    and isinstance(b, ast.Call) and src(b.func) == "self._op.draw_sample":
+                direct.append(r)
+            elif isinstance(b, ast.Attribute) and b.attr == "position":
+                cg.append((r, e))
     ctx.check("R13.2", f"{sp_.key}::returns (right-hand side, solution): direct draw (op(res), res) or CG result (b, energy.position)",
-              allr == sorted(["(b, energy.position)", "(self._op(res), res)"]), str(allr), sp_)
-    body = src(sp_.node)
-    ctx.check("R13.2", f"{sp_.key}::right-hand side is prior(s) + likelihood noise with the gradient hint consistent with it",
-              "b = self._prior(s) + nj" in body and "QuadraticEnergy(s, self._op, b, _grad=self._likelihood(s) - nj)" in body, None, sp_)
+              len(direct) == 1 and len(cg) == 1 and len(rets_) == 2, f"{[src(r.ast.value) for r in rets_]}", sp_)
+    qes = [c for c in walk_no_nested(sp_.node) if isinstance(c, ast.Call) and call_name(c) == "QuadraticEnergy" and any(k.arg == "_grad" for k in c.keywords)]
+    okq = False
+    det = None
+    if len(qes) == 1:
+        qn = [n for n in scfg.nodes if n.kind == "stmt" and any(x is qes[0] for x in ast.walk(n.ast))]
+        if qn:
+            q = inline_at(scfg, srd, qn[0].id, qes[0], depth=6)
+            det = src(q)
+            if len(q.args) == 3:
+                s0, a1, b2 = q.args
+                g = [k.value for k in q.keywords if k.arg == "_grad"][0]
+                okq = src(a1) == "self._op" and isinstance(b2, ast.BinOp) and isinstance(b2.op, ast.Add) \
+                    and src(b2.left) == f"self._prior({src(s0)})" and isinstance(g, ast.BinOp) and isinstance(g.op, ast.Sub) \
+                    and src(g.left) == f"self._likelihood({src(s0)})" and src(g.right) == src(b2.right) \
+                    and src(s0).startswith("self._prior.draw_sample(") and src(b2.right).startswith("self._likelihood.draw_sample(")
+    ctx.check("R13.2", f"{sp_.key}::right-hand side is prior(s) + likelihood noise with the gradient hint consistent with it", okq, det, sp_)
